@@ -1,0 +1,49 @@
+//go:build verif
+
+// Contracts for package peers, read by the govc verifier in /verif (comment-only).
+
+package peers
+
+// memoOK: the memoised thresholds, when present, satisfy the defining property of the threshold for
+// the current number of distinct keys. NewPeerSet leaves both nil.
+//@ ghost func (ps *PeerSet) memoOK() bool { return (ps.superMajority == nil || (3*(*ps.superMajority) > 2*len(ps.ByPubKey) && 3*(*ps.superMajority-1) <= 2*len(ps.ByPubKey))) && (ps.trustCount == nil || ((forall s int :: s > *ps.trustCount ==> 3*s > len(ps.ByPubKey)) && (1 > *ps.trustCount ==> len(ps.ByPubKey) <= 1))) }
+
+//@ func (peerSet *PeerSet) Len() int
+//@   requires peerSet != nil
+//@   modifies nothing
+//@   ensures[len] ret0 == len(peerSet.ByPubKey) && ret0 >= 0
+
+//@ func (peerSet *PeerSet) SuperMajority() int
+//@   ints checked
+//@   safety on
+//@   requires peerSet != nil && peerSet.memoOK() && len(peerSet.ByPubKey) <= 1099511627776
+//@   modifies peerSet.superMajority
+//@   ensures[least]  3*ret0 > 2*len(peerSet.ByPubKey) && 3*(ret0-1) <= 2*len(peerSet.ByPubKey)
+//@   ensures[memo]   peerSet.memoOK()
+//@   aux[closed]     old(peerSet.superMajority) == nil ==> ret0 == 2*len(peerSet.ByPubKey)/3 + 1
+
+//@ func (peerSet *PeerSet) TrustCount() int
+//@   ints checked
+//@   safety on
+//@   requires peerSet != nil && peerSet.memoOK() && len(peerSet.ByPubKey) < 2147483648 && len(peerSet.ByPubKey) <= len(peerSet.Peers)
+//@   modifies peerSet.trustCount
+//@   ensures[strict-third] forall s int :: s > ret0 ==> 3*s > len(peerSet.ByPubKey)
+//@   ensures[single]       1 > ret0 ==> len(peerSet.ByPubKey) <= 1
+//@   ensures[memo]         peerSet.memoOK()
+//@   aux[closed]           old(peerSet.trustCount) == nil ==> ret0 == __ite(len(peerSet.Peers) > 1, (len(peerSet.ByPubKey)+2)/3, 0)
+
+//@ lemma sm_le(n int, sm int)
+//@   requires n >= 1 && 3*sm > 2*n && 3*(sm-1) <= 2*n
+//@   ensures[le] sm <= n
+
+//@ lemma quorum_intersect(n int, sm int)
+//@   requires n >= 1 && 3*sm > 2*n && 3*(sm-1) <= 2*n
+//@   ensures[overlap] 3*(2*sm - n) > n
+
+//@ lemma honest_majority(n int, f int, sm int)
+//@   requires n >= 1 && f >= 0 && 3*f < n && 3*sm > 2*n && 3*(sm-1) <= 2*n
+//@   ensures[majority] sm > 2*f
+
+//@ lemma trusted_has_honest(n int, f int, tc int, s int)
+//@   requires n >= 1 && f >= 0 && 3*f < n && (forall t int :: t > tc ==> 3*t > n) && s > tc
+//@   ensures[honest] s > f
